@@ -327,3 +327,26 @@ Qed.
 Lemma dyn_depth_members (l : list tval) :
   Forall (fun x => dyn_depth x <= fold_right (fun y a => Nat.max (dyn_depth y) a) 0 l) l.
 Proof. apply Forall_forall. intros x Hin. apply dyn_depth_in. exact Hin. Qed.
+
+(* ---------- post-processing the result does not change what is consumed ---------- *)
+Lemma eats_map {A C} B (p : bytes -> res (A * bytes)) (g : A -> C) e :
+  eats B p e -> eats B (fun bs => do '(a, r) <- p bs; ROk (g a, r)) e.
+Proof.
+  intros He rest Hlen. destruct (He rest Hlen) as [x Hx]. exists (g x). rewrite Hx. reflexivity.
+Qed.
+
+Lemma strict_map {A C} B (p : bytes -> res (A * bytes)) (g : A -> C) e :
+  strict B p e -> strict B (fun bs => do '(a, r) <- p bs; ROk (g a, r)) e.
+Proof. intros Hs k Hk HB. apply fails_bind. exact (Hs k Hk HB). Qed.
+
+Lemma eats_ext {A} B (p q : bytes -> res (A * bytes)) e :
+  (forall bs, p bs = q bs) -> eats B q e -> eats B p e.
+Proof. intros Heq He rest Hlen. rewrite Heq. exact (He rest Hlen). Qed.
+
+Lemma strict_ext {A} B (p q : bytes -> res (A * bytes)) e :
+  (forall bs, p bs = q bs) -> strict B q e -> strict B p e.
+Proof. intros Heq Hs k Hk HB. rewrite Heq. exact (Hs k Hk HB). Qed.
+
+Lemma both_ext {A} B (p q : bytes -> res (A * bytes)) e :
+  (forall bs, p bs = q bs) -> eats B q e /\ strict B q e -> eats B p e /\ strict B p e.
+Proof. intros Heq [He Hs]. split; [exact (eats_ext B p q e Heq He)|exact (strict_ext B p q e Heq Hs)]. Qed.
